@@ -46,18 +46,18 @@ def model_unit_check(ctx):
     ctx.notes["model_unit_facts"] = "specs/nf/MC_NfUnit.tla: all ASSUMEs hold (%.0fs)" % r.wall
 
 
-def _tlc_walk(module, cfg, lines, tag, timeout, keep):
+def _tlc_walk(module, cfg, lines, tag, timeout, keep, specdir=None):
     path = os.path.join(keep, "cases-%s.ndjson" % tag)
     with open(path, "w") as f:
         f.write("\n".join(lines) + "\n")
-    r = core.tlc(SPECDIR, module, cfg, workers=1, timeout=timeout, heap="3g", stack="256m",
+    r = core.tlc(specdir or SPECDIR, module, cfg, workers=1, timeout=timeout, heap="3g", stack="256m",
                  extra_files={"trace.ndjson": path})
     if r.violated:
         raise HarnessError("TLC did not consume the whole case file (%s %s): %s\n%s" % (module, cfg, r.violated, r.out[-3000:]))
     return r
 
 
-def walk_parallel(ctx, module, cfg, lines, chunks=4, timeout=900, max_bytes=6 << 20):
+def walk_parallel(ctx, module, cfg, lines, chunks=4, timeout=900, max_bytes=6 << 20, specdir=None):
     """-> (rejected t ids, list of NPROBE int-tuples, tlc wall seconds, states).
     The case file is cut into interleaved parts (at least `chunks`, more when a part would exceed max_bytes: TLC holds
     the whole part as TLA+ values); at most 4 TLC processes run at a time."""
@@ -66,7 +66,7 @@ def walk_parallel(ctx, module, cfg, lines, chunks=4, timeout=900, max_bytes=6 <<
     k = max(k, -(-total // max_bytes))
     parts = [lines[i::k] for i in range(k)]
     with concurrent.futures.ThreadPoolExecutor(max_workers=min(k, 4)) as ex:
-        futs = [ex.submit(_tlc_walk, module, cfg, part, "%s-%d" % (module, i), timeout, ctx.work) for i, part in enumerate(parts)]
+        futs = [ex.submit(_tlc_walk, module, cfg, part, "%s-%d" % (module, i), timeout, ctx.work, specdir) for i, part in enumerate(parts)]
         res = [f.result() for f in futs]
     rejected, probes, wall, states = [], [], 0.0, 0
     for r in res:
@@ -79,9 +79,9 @@ def walk_parallel(ctx, module, cfg, lines, chunks=4, timeout=900, max_bytes=6 <<
     return rejected, probes, wall, states
 
 
-def diagnose(ctx, module, diag_cfg, lines, timeout=600):
+def diagnose(ctx, module, diag_cfg, lines, timeout=600, specdir=None):
     """-> {t: (class tuple text, full diag text)}"""
-    r = _tlc_walk(module, diag_cfg, lines, module + "-diag", timeout, ctx.work)
+    r = _tlc_walk(module, diag_cfg, lines, module + "-diag", timeout, ctx.work, specdir)
     out = {}
     for m in re.finditer(r'<<\s*"DIAG",\s*(-?\d+),\s*(<<.*?>>)\s*>>\s*(?=\n[^ \n]|\Z)', r.out, re.S):
         txt = " ".join(m.group(2).split())
